@@ -414,11 +414,26 @@ def run(ctx):
     rows, seen = [], {}
     built = ctx.harness_build("c18")
     if built:
-        n = 260 if quick else 6000
+        n = 400 if quick else 6000
         ok, _ = ctx.harness_run("c18", ["-out", "cases.jsonl", "-seed", ctx.seed, "-n", n, "-long", 6 if quick else 24],
                                 timeout=1500)
         if ok:
             rows = ctx.read_jsonl(os.path.join(ctx.work, "cases.jsonl"))
+    # corpus of minimised regression inputs first
+    cdir = os.path.join(verif.ROOT, "corpus", "C18")
+    if built and os.path.isdir(cdir):
+        lines = []
+        for fn in sorted(os.listdir(cdir)):
+            if fn.endswith(".json"):
+                c = json.load(open(os.path.join(cdir, fn)))
+                for e in c.get("inputs", []):
+                    lines.append("%s:%s" % (e["kind"], e["hex"]))
+        if lines:
+            with open(os.path.join(ctx.work, "corpus.txt"), "w") as f:
+                f.write("\n".join(lines) + "\n")
+            ok, _ = ctx.harness_run("c18", ["-out", "corpus.jsonl", "-list", "corpus.txt"], timeout=600)
+            if ok:
+                rows = ctx.read_jsonl(os.path.join(ctx.work, "corpus.jsonl")) + rows
     judge_rows(ctx, rows, seen)
     cases = [o for o in rows if o["kind"] in KINDS]
     if model_ok and cases:
